@@ -61,17 +61,21 @@ func (s exhSpec) eachByte(depth int, f func(text string)) {
 			pres = append(pres, p)
 		}
 	}
+	ext := 1
+	if depth < 0 { // narrow mode (used under the chunk-schedule oracle): the given prefixes only
+		depth, ext = 0, 0
+	}
 	for k, p := range s.prefixes {
 		if k == 0 && p == "" {
 			enumStrings(s.alpha, depth, addp)
 			continue
 		}
-		enumStrings(s.alpha, 1, func(t string) { addp(p + t) })
+		enumStrings(s.alpha, ext, func(t string) { addp(p + t) })
 	}
 	for _, p := range pres {
 		for c := 0; c < 256; c++ {
 			f(p + string([]byte{byte(c)}) + s.trailer)
-			if len(s.alpha) > 0 {
+			if len(s.alpha) > 0 && ext == 1 {
 				f(p + string([]byte{byte(c)}) + s.alpha[:1] + s.trailer)
 			}
 		}
@@ -182,9 +186,11 @@ func (g *Gen) exhResume(prop, sel string) {
 				}
 			}
 		})
-		s.eachByte(1, func(text string) {
-			mk(s.hd, text, allCuts(len(text)), s.flags, s.desc+"-anybyte")
-		})
+		if !strings.HasPrefix(s.hd, "msg") || s.hd == "msg 3 1" {
+			s.eachByte(-1+2*d, func(text string) {
+				mk(s.hd, text, allCuts(len(text)), s.flags, s.desc+"-anybyte")
+			})
+		}
 	}
 }
 
